@@ -54,7 +54,7 @@ func SetupC11Serve() any {
 	for i, rt := range base.Routes {
 		m := methodOf3(i)
 		ign := i%3 == 0
-		red := i%3 == 1 && sym.Param("redir") == 1
+		red := i%3 == 1 && sym.ParamOr("redir", 0) == 1
 		st.set.Routes = append(st.set.Routes, R{m, rt.Pattern})
 		st.ignore[m+" "+rt.Pattern] = ign
 		st.redirect[m+" "+rt.Pattern] = red
@@ -146,6 +146,16 @@ func HarnessC11Serve(st any) {
 		sym.Assume(!hasEmptySegment(path))
 	}
 	req := &http.Request{Method: method, Host: host, URL: &url.URL{Path: path}}
+	if sym.ParamOr("raw", 0) == 1 {
+		// percent-encoded request: routed (and probed for Allow) on RawPath
+		for i := 0; i < len(path); i++ {
+			sym.Assume(sym.ByteIn(path[i], rawPathBytes))
+		}
+		dec, ok := pctDecode(path)
+		sym.Assume(ok && dec != path)
+		req.URL.Path, req.URL.RawPath = dec, path
+		sym.Cover("percent-encoded request")
+	}
 
 	// oracle
 	how, res := s.serves(method, host, path)
